@@ -1,5 +1,6 @@
 (** C01 — Every submitted task runs exactly once. (what is established so far) *)
 From OCV Require Import Cases.Pool.
+From OCV Require Import Sched.PoolWf Sched.PoolRun Sched.PoolProofs Sched.PoolInv Sched.PoolExample.
 Open Scope Z_scope.
 
 Definition c01_witness : pcase :=
@@ -14,4 +15,34 @@ Theorem C01_refuted_stolen_worker_wedges_pool :
             /\ exists e, last (model_obs c) OUnitP = OPass PDiverged e.
 Proof. exists c01_witness. vm_compute. repeat split; auto. eexists; reflexivity. Qed.
 
+(** * One pool: every well-formed history (any length, any task bodies, cancels, cleans, waits, stops,
+    clock steps), the oracle applied to the model's own run. [wf_pool1]: min = 0, keep-alive = 0,
+    max >= 1, operations on pool 0, task ids submitted, acceptable bodies, clock monotone.
+    Partial: needs [nodiv] (no pass or stop of the model's run exhausts its fuel); what is missing is
+    the termination argument for the fuel of the worker loop / do_schedule / stop loop. *)
+Theorem C01_single_pool_partial : forall clock cfg ops, wf_pool1 clock cfg ops = true ->
+  nodiv (pw0 clock [cfg]) ops = true ->
+  po_c01 (fst (self_flags clock [cfg] ops)) = true.
+Proof. exact c01_model1_partial. Qed.
+
+(** a stored result is the task's own outcome, or the cancellation / stop error *)
+Theorem C01_result_is_own_partial : forall clock cfg ops n, wf_pool1 clock cfg ops = true -> nodiv (pw0 clock [cfg]) ops = true ->
+  let x := pfinal (pw0 clock [cfg]) (firstn n ops) in
+  forall i r, In (i, r) (p_results (get_pool x 0)) ->
+    r = body_outcome (nth i (pw_tbody x) []) \/ r = TErr TMCancelled \/ (r = TErr TMStopped /\ p_state (get_pool x 0) = PStopped).
+Proof. exact result_own1_partial. Qed.
+
+(** with one pool neither of the two-pool defects can arise, for any history whatsoever *)
+Theorem C01_single_pool_no_defect : forall clock cfg ops,
+  ~ In defect_stolen_worker (pw_defects (pfinal (pw0 clock [cfg]) ops)) /\
+  ~ In defect_result_elsewhere (pw_defects (pfinal (pw0 clock [cfg]) ops)).
+Proof. exact single_pool_no_defect. Qed.
+
+(** the premises are satisfiable: a 33-operation history with every kind of operation *)
+Example C01_nonvacuous : wf_pool1 0 ex_cfg ex_ops = true /\ nodiv (pw0 0 [ex_cfg]) ex_ops = true.
+Proof. split; [exact ex_wf | exact (proj1 ex_extra)]. Qed.
+
 Print Assumptions C01_refuted_stolen_worker_wedges_pool.
+Print Assumptions C01_single_pool_partial.
+Print Assumptions C01_result_is_own_partial.
+Print Assumptions C01_single_pool_no_defect.
